@@ -204,7 +204,9 @@ Exec(st, S) ==
               IN IF ~IsNorm(b) THEN b
                  ELSE LET r == Block(st.body, 1, b.S)
                       IN IF r.comp.c = "drift" THEN r
-                         ELSE IF Expect(r.S, "cm_exit", Str(st.k)) THEN R2(Adv(r.S), r.comp) ELSE R2(r.S, Drift("cm_exit"))
+                         ELSE IF Expect(r.S, "cm_exit", Str(st.k))
+                              THEN R2(Adv(r.S), IF st.sup /\ r.comp.c = "exc" THEN Norm ELSE r.comp)   \* a manager may swallow the exception
+                              ELSE R2(r.S, Drift("cm_exit"))
     [] st.s \in {"import", "from"} ->
          Binds(S, << IF st.as # "" THEN st.as ELSE IF st.s = "from" THEN st.name ELSE st.first >>)
     [] st.s = "return" ->      \* the value event belongs to the return statement (inside the loop brackets it leaves)
